@@ -68,7 +68,7 @@ def item_name(item):
     return str(item)
 
 
-def pmap(fn, items, jobs, init=None, initargs=(), seed=0, chunksize=1, progress=None):
+def pmap(fn, items, jobs, init=None, initargs=(), seed=0, chunksize=1, progress=None, first=None):
     """run fn(item) -> dict over items on a process pool (fork); order of work is permuted by seed only"""
     items = list(items)
     if progress is None and os.environ.get('VERIF_PROGRESS'):
@@ -82,6 +82,8 @@ def pmap(fn, items, jobs, init=None, initargs=(), seed=0, chunksize=1, progress=
     if seed:
         import random
         random.Random(seed).shuffle(items)
+    if first:
+        items.sort(key=lambda i: 0 if first(i) else 1)      # long-running items are started first (stable)
     if jobs <= 1 or len(items) <= 1:
         _init_worker(init, initargs)
         out = []
